@@ -495,6 +495,14 @@ func vfC45GenLoadAssignment(g *vfC45G, m protoreflect.Message, fd protoreflect.F
 func vfC45GenHTTPFilters(g *vfC45G, m protoreflect.Message, fd protoreflect.FieldDescriptor, depth int) bool {
 	n := rapid.IntRange(1, 3).Draw(g.rt, "n_http_filters")
 	good := g.pct(85, "good_filter_order")
+	if good && g.server == 0 {
+		// the only non-terminal client-side filter is fault injection; when its
+		// proto is not linked into this binary a well-formed client chain is
+		// just the router
+		if _, err := protoregistry.GlobalTypes.FindMessageByName(vfC45Fault); err != nil {
+			n = 1
+		}
+	}
 	list := m.Mutable(fd).List()
 	for i := 0; i < n; i++ {
 		el := list.NewElement()
